@@ -64,6 +64,9 @@ func Analyse(r *Run) *Analysis {
 		if s.Idx >= 1000 && s.Idx < 9999 && r.Sc.SteerConn > 1 {
 			a.TwoSubmitters = true
 		}
+		if s.Idx >= 2000 && s.Idx < 9000 {
+			a.TwoSubmitters = true // submitted from inside a handler or the OnError callback, concurrently with the workload
+		}
 	}
 	return a
 }
